@@ -82,8 +82,13 @@ func entryFunc() string {
 	return "g"
 }
 
+// GoNow starts a named harness thread that runs at once (no initial scheduling point).
+func (s *Sched) GoNow(name string, f func()) { s.spawn(name, f, false) }
+
 // Go starts a named harness thread. It parks at point "start" before running f.
-func (s *Sched) Go(name string, f func()) {
+func (s *Sched) Go(name string, f func()) { s.spawn(name, f, true) }
+
+func (s *Sched) spawn(name string, f func(), park bool) {
 	done := new(bool)
 	s.mu.Lock()
 	s.threads[name] = done
@@ -92,7 +97,9 @@ func (s *Sched) Go(name string, f func()) {
 		s.mu.Lock()
 		s.byGid[curGid()] = name
 		s.mu.Unlock()
-		s.Point("start")
+		if park {
+			s.Point("start")
+		}
 		defer func() {
 			s.mu.Lock()
 			*done = true
